@@ -349,9 +349,10 @@ def codeFenceLoop (leader : Str) (prepend : Nat) : Nat → FW → List Str → L
       let fw1 := fw.next
       let stripped := lstripSp l.s
       let diff := l.s.length - stripped.length
-      -- len(stripped_line.split(maxsplit=1)) == 1
-      let oneWord := match splitWs stripped with | [_] => true | _ => false
-      if startsWith leader stripped && oneWord && diff < 4 then (buf, fw1)
+      -- not stripped_line.rstrip(' \t\n').strip(fence[0])   (fence[0] exists: the pattern gives >= 3 characters)
+      -- `r.strip(c)` is empty exactly when every character of `r` is `c`
+      let fenceOnly := (rstripSet [' ', '\t', '\n'] stripped).all (fun x => some x == leader.head?)
+      if startsWith leader stripped && fenceOnly && diff < 4 then (buf, fw1)
       else
         let piece := if diff > prepend then List.replicate (diff - prepend) ' ' ++ stripped else stripped
         codeFenceLoop leader prepend fuel fw1 (piece :: buf)
